@@ -458,8 +458,10 @@ class CodeFence(BlockToken):
         for line in lines:
             stripped_line = line.lstrip(' ')
             diff = len(line) - len(stripped_line)
+            # a closing fence: at least as many fence characters as the opening one has,
+            # followed by nothing but spaces or tabs
             if (stripped_line.startswith(cls._open_info[1])
-                    and len(stripped_line.split(maxsplit=1)) == 1
+                    and not stripped_line.rstrip().strip(cls._open_info[1][0])
                     and diff < 4):
                 break
             if diff > cls._open_info[0]:
